@@ -139,49 +139,8 @@ func runC03(c *report.Ctx) {
 	ruleKeyUseGated(c)
 
 	// ---- (2) unlock scoped ---------------------------------------------------------------------------
-	c.Rule("unlock-scoped", "the function that signs the inputs defers ClearPrivKey before the first signature, so derived private keys do not outlive the call", 1)
+	ruleUnlockScoped(c)
 	sw := fn(c, pkgWallet, "WalletManager", "signWitnessTx")
-	clear := fn(c, pkgKeystore, "KeystoreManager", "ClearPrivKey")
-	signTx := p.Fn(pkgTxscript, "", "SignTxOutputWit")
-	if signTx == nil {
-		c.Lost("txscript.SignTxOutputWit")
-	}
-	if sw != nil && clear != nil && signTx != nil {
-		var def ssa.Instruction
-		an.Instrs(sw, func(in ssa.Instruction) {
-			if d, ok := in.(*ssa.Defer); ok && d.Call.StaticCallee() == clear {
-				def = in
-			}
-		})
-		ss := calls(sw, signTx)
-		if len(ss) == 0 {
-			c.Fail(sk(sw)+":SignTxOutputWit", "anchor lost: signWitnessTx no longer signs through txscript.SignTxOutputWit", p.Pos(sw.Pos()))
-		}
-		for _, s := range ss {
-			if def != nil && instrDominates(def, s) {
-				c.OK(sk(sw)+":defer-ClearPrivKey", "deferred before the first input is signed", posOf(c, def))
-			} else {
-				c.Fail(sk(sw)+":defer-ClearPrivKey", "ClearPrivKey is not deferred before signing: after the call (or after an error in the middle of it) the derived private keys and the unlocked flag stay in memory and later calls sign without a passphrase check", posOf(c, s))
-			}
-		}
-		// ClearPrivKey reaches clearPrivKeys which resets `unlocked`
-		cpk := fn(c, pkgKeystore, "AddrManager", "clearPrivKeys")
-		am := p.Type(pkgKeystore, "AddrManager")
-		if cpk != nil && am != nil {
-			reached, _ := p.Reach([]*ssa.Function{clear}, an.ReachOpts{})
-			okReset := false
-			for _, st := range fieldStores(cpk, am, "unlocked") {
-				if p.Desc(st.(*ssa.Store).Val) == "false" {
-					okReset = true
-				}
-			}
-			if reached[cpk] && okReset {
-				c.OK(sk(clear)+"=>unlocked=false", "ClearPrivKey locks every address manager", p.Pos(clear.Pos()))
-			} else {
-				c.Fail(sk(clear)+"=>unlocked=false", "ClearPrivKey no longer re-locks the address managers", p.Pos(clear.Pos()))
-			}
-		}
-	}
 
 	// ---- (3) write effects --------------------------------------------------------------------------------
 	c.Rule("witness-only", "code reachable from SignRawTx inside the wallet stores nothing into a wire.MsgTx/TxIn/TxOut except TxIn.Witness", 1)
@@ -383,7 +342,59 @@ func runC03(c *report.Ctx) {
 			}
 		}
 	}
+
+	// ---- per-input previous output; the unlocked cache is self-sufficient -------------------------------------
+	rulePrevOutputPerInput(c)
+	ruleBranchCacheComplete(c)
 }
 
 // passedExecute: block b is dominated by the block of the Execute call (the check follows the call).
 func passedExecute(b *ssa.BasicBlock, ev *ssa.Call) bool { return ev.Block().Dominates(b) }
+
+// ruleUnlockScoped is shared by C03/C05: derived private keys do not outlive the signing call.
+func ruleUnlockScoped(c *report.Ctx) {
+	p := c.P
+	c.Rule("unlock-scoped", "the function that signs the inputs defers ClearPrivKey before the first signature, so derived private keys do not outlive the call", 1)
+	sw := fn(c, pkgWallet, "WalletManager", "signWitnessTx")
+	clear := fn(c, pkgKeystore, "KeystoreManager", "ClearPrivKey")
+	signTx := p.Fn(pkgTxscript, "", "SignTxOutputWit")
+	if signTx == nil {
+		c.Lost("txscript.SignTxOutputWit")
+	}
+	if sw != nil && clear != nil && signTx != nil {
+		var def ssa.Instruction
+		an.Instrs(sw, func(in ssa.Instruction) {
+			if d, ok := in.(*ssa.Defer); ok && d.Call.StaticCallee() == clear {
+				def = in
+			}
+		})
+		ss := calls(sw, signTx)
+		if len(ss) == 0 {
+			c.Fail(sk(sw)+":SignTxOutputWit", "anchor lost: signWitnessTx no longer signs through txscript.SignTxOutputWit", p.Pos(sw.Pos()))
+		}
+		for _, s := range ss {
+			if def != nil && instrDominates(def, s) {
+				c.OK(sk(sw)+":defer-ClearPrivKey", "deferred before the first input is signed", posOf(c, def))
+			} else {
+				c.Fail(sk(sw)+":defer-ClearPrivKey", "ClearPrivKey is not deferred before signing: after the call (or after an error in the middle of it) the derived private keys and the unlocked flag stay in memory and later calls sign without a passphrase check", posOf(c, s))
+			}
+		}
+		// ClearPrivKey reaches clearPrivKeys which resets `unlocked`
+		cpk := fn(c, pkgKeystore, "AddrManager", "clearPrivKeys")
+		am := p.Type(pkgKeystore, "AddrManager")
+		if cpk != nil && am != nil {
+			reached, _ := p.Reach([]*ssa.Function{clear}, an.ReachOpts{})
+			okReset := false
+			for _, st := range fieldStores(cpk, am, "unlocked") {
+				if p.Desc(st.(*ssa.Store).Val) == "false" {
+					okReset = true
+				}
+			}
+			if reached[cpk] && okReset {
+				c.OK(sk(clear)+"=>unlocked=false", "ClearPrivKey locks every address manager", p.Pos(clear.Pos()))
+			} else {
+				c.Fail(sk(clear)+"=>unlocked=false", "ClearPrivKey no longer re-locks the address managers", p.Pos(clear.Pos()))
+			}
+		}
+	}
+}
